@@ -44,7 +44,7 @@ elif rnd == 'r5':
              "Prefer the less-travelled code the property also covers — the Java, Dart and Python generators (including asyncio/tornado), the html and json targets, option-dependent paths (-r/recursive generation, use_vendor, go:slim, go:async, package prefixes, "
              "topic delimiter and other generator options), the HTTP and STOMP transports, the simple server, the scope (pub/sub) client paths, error/exception paths rather than success paths, and interactions between two files or two functions that each look fine alone. "
              "A restructuring commit in which one detail went wrong (helper extracted, guard moved, loop rewritten, condition inverted, two helpers merged) is the preferred disguise, as in real regressions.")
-elif rnd == 'r6':
+elif rnd in ('r6', 'r7'):
     import os, re, glob
     ideas = []
     for d in sorted(glob.glob(f'/verif/seeded/{pid}*')):
@@ -58,7 +58,7 @@ elif rnd == 'r6':
         if t: ideas.append(f"{t} [{', '.join(files)}]")
     avoid = ("  IN THIS ROUND work clause by clause. First split the property statement into its separate clauses (each 'and', each 'never', each quantifier is one), and for every clause list ALL the code sites that implement it "
              "(every transport, every generator language, every caller of a shared helper, both the success and the error path). Then pick clauses and sites that nobody has attacked yet. "
-             "Ten changes already exist for this property; do NOT repeat them or close variants of them, and prefer a different clause or a different file altogether: " + "; ".join(ideas) + ". "
+             f"{len(ideas)} changes already exist for this property; do NOT repeat them or close variants of them, and prefer a different clause or a different file altogether: " + "; ".join(ideas) + ". "
              "Good shapes for this round: a condition weakened for one case only (one transport, one type kind, one option value); the right step applied to the wrong one of two same-typed values; an invariant kept by two cooperating sites where only one is changed; "
              "a value computed once where it must be computed per item; an 'optimisation' or 'hardening' that looks like an improvement in review; a defect that only a second call / a re-open / a retry / a second file of the same run exposes.")
 elif rnd:
